@@ -415,6 +415,59 @@ def work_extremes(job):
     return acc.result()
 
 
+def work_threaded(job):
+    """a whole worker function run on a thread that never used the library, after the library was first used on this
+    (the process's main) thread: nothing may depend on per-thread state set up by the first user (decimal contexts)"""
+    import threading
+    name, inner = job
+    feval.Evaluator().run('=ROUND(2.5,0)+MOD(7,3)+CEILING(0.3,0.1)+FLOOR(1e22,0.3)+MOD(1e22,0.3)', {})
+    box = {}
+
+    def body():
+        box['res'] = globals()[name](inner)
+    t = threading.Thread(target=body)
+    t.start()
+    t.join()
+    if 'res' not in box:
+        acc = Acc()
+        acc.violation(dict(kind='thread', fn='thread', verdict='raised'), f'{name} died on a fresh thread')
+        return acc.result()
+    res = box['res']
+    res['violations'] = [(dict(c, fresh_thread=True), 'on a fresh thread: ' + m) for c, m in res['violations']]
+    return res
+
+
+NUMTEXTS = ['4.0', '3.0', '0.0', '1e3', '-7.0', '2.50', '12.0', '7', '-2.5', '1E+2', '.5', '5.', '+3.0', '2.5e0']
+
+
+def work_argforms(job):
+    """the same numbers arriving in other forms: as text that spells them (a text argument is that number or an error
+    value, never another number) and as numpy scalars (what SLOPE / FORECAST return: plain numbers)"""
+    import numpy as np
+    acc = Acc()
+    ev = feval.Evaluator()
+    forms = ['=EVEN(A1)', '=ODD(A1)', '=INT(A1)', '=ROUND(A1,0)', '=ROUND(A1,1)', '=ROUNDUP(A1,0)', '=ROUNDDOWN(A1,0)', '=TRUNC(A1)', '=TRUNC(A1,1)',
+             '=MOD(A1,3)', '=MOD(10,A1)', '=CEILING(A1,1)', '=FLOOR(A1,1)', '=CEILING.MATH(A1)', '=FLOOR.MATH(A1)', '=CEILING(7,A1)',
+             '=ROUND(2.345,A1)', '=ROUNDUP(-2.345,A1)']
+    args = [(t, float(t)) for t in NUMTEXTS]
+    args += [(np.float64(v), v) for v in (2.5, -2.5, 0.125, 1.9099999999999995, 4.0, -7.0, 0.0, 1e22)] + [(np.int64(3), 3), (np.int64(-4), -4)]
+    for f in forms:
+        for arg, val in args:
+            o, e = ev.run(f, {'A1': arg}), ev.run(f, {'A1': val})
+            acc.add('evaluations', 2)
+            acc.add('states')
+            acc.add('distinct_nontrivial')
+            kind = 'text' if isinstance(arg, str) else 'numpy'
+            case = dict(kind='argform', fn=f.split('(')[0][1:], formula=f, arg=repr(arg), form=kind)
+            if o[0] != 'ok':
+                acc.violation(dict(case, verdict='raised', exc=o[1]), f'{f} with A1 = {arg!r} raised {o[1]}: {o[2][-80:]}')
+            elif e[0] == 'ok' and not (o[1] == e[1] or (kind == 'text' and isinstance(o[1], str) and o[1].startswith('#'))):
+                acc.violation(dict(case, verdict='wrong-value', observed=jsonable(o[1]), expected=jsonable(e[1])),
+                              f'{f} with A1 = {arg!r} = {o[1]!r}, with the number {val!r} it is {e[1]!r}')
+    acc.counts['transitions'] = acc.counts.get('evaluations', 0)
+    return acc.result()
+
+
 def run(ctx):
     m = 64
     ctx.pmap(work_fresh_thread, [(0,), (1,)], timeout=600)
@@ -422,6 +475,8 @@ def run(ctx):
     ctx.pmap(work_brackets, [(k, 32, ctx.thorough) for k in range(32)], timeout=6000)
     ctx.pmap(work_mod, [(0,)], timeout=1200)
     ctx.pmap(work_extremes, [(0,)], timeout=1200)
+    ctx.pmap(work_threaded, [('work_extremes', (0,)), ('work_mod', (0,)), ('work_argforms', (0,))], timeout=1200)
+    ctx.pmap(work_argforms, [(0,)], timeout=600)
     ctx.pmap(work_artefacts, [(k, 8) for k in range(8)], timeout=1200)
     ctx.sample(dict(formula='=ROUND(25,-1)', expected=30, note='tie away from zero, negative digits'))
     ctx.sample(dict(formula='=TRUNC(0.29,2)', expected=0.29, note='exact multiple is fixed'))
@@ -431,6 +486,15 @@ def run(ctx):
 
 def replay(case):
     ev = feval.Evaluator()
+    if case.get('fresh_thread') or case['kind'] == 'argform':
+        hits = []
+        for name in ('work_extremes', 'work_mod', 'work_argforms'):
+            r = work_threaded((name, (0,))) if case.get('fresh_thread') else globals()[name]((0,))
+            keys = [k for k in case if k not in ('fresh_thread', 'observed', 'expected', 'exc', 'int_part')]
+            hits += [m for c, m in r['violations'] if all(c.get(k) == case.get(k) for k in keys)]
+            if case['kind'] == 'argform' and not case.get('fresh_thread') and name != 'work_argforms':
+                hits = []
+        return bool(hits), '\n'.join(hits[:2]) or 'no violation'
     if case['kind'] in ('round', 'artefact'):
         x = case['x']
         fn = case['fn'].rstrip('1')
